@@ -184,3 +184,28 @@ Proof.
           change (2 ^ (8 * 2 ^ 3)) with 18446744073709551616; change (2 ^ 64) with 18446744073709551616; lia).
     str_case Hl Hfin Hw He Ht Hbase Hb64 Ewr true (@None Z) 8%nat.
 Qed.
+
+(* ------------------------------------------------------------------ LDAR / LDLAR / STLR / STLLR (+ B, H): same builders, offset 0 *)
+Theorem ldst_ord_sim addr size (load o0 : bool) rn rt :
+  0 <= size < 4 -> 0 <= rn < 32 -> 0 <= rt < 32 -> sim addr (ILdStOrd size load o0 rn rt).
+Proof.
+  intros Hsz Hn Ht.
+  set (opc := if load then 1 else 0).
+  assert (Hsim : sim addr (ILdStImm size opc WOffset true 0 rn rt)).
+  { unfold opc. destruct load.
+    - apply ldr_imm_sim; try assumption; [lia|].
+      assert (size = 0 \/ size = 1 \/ size = 2 \/ size = 3) as [-> | [-> | [-> | ->]]] by lia; reflexivity.
+    - apply str_imm_sim; assumption. }
+  intros s st ops succs s' Hw Hpc Ha He Hm Hl Hs.
+  assert (Hbase : wrap64 (SPorX s rn + 0 * 2 ^ size) = SPorX s rn).
+  { rewrite Z.mul_0_l, Z.add_0_r. unfold wrap64. apply Z.mod_small.
+    destruct Hw as (Hx & Hsp & _). unfold SPorX. destruct (rn =? 31); auto. }
+  apply (Hsim s st ops succs s' Hw Hpc Ha He).
+  - cbn [footprint]. rewrite Hbase. exact Hm.
+  - rewrite <- Hl. unfold lift. cbn [operands_of]. fold opc.
+    assert (Hrt : ldst_rt size opc rt = xreg_zr (size =? 3) rt).
+    { unfold opc. assert (size = 0 \/ size = 1 \/ size = 2 \/ size = 3) as [-> | [-> | [-> | ->]]] by lia; destruct load; reflexivity. }
+    rewrite Hrt, Z.mul_0_l. reflexivity.
+  - rewrite <- Hs. cbn [a64step]. fold opc.
+    destruct (ldst_regsize_signed size opc) as [[r0 s0] i0]. cbn [andb]. rewrite Hbase. reflexivity.
+Qed.
